@@ -159,6 +159,9 @@ func (r *MetricRegistry) RegisterDistribution(
 	}
 
 	// only add once
+	r.mu.Lock()
+	defer r.mu.Unlock()
+
 	if l, ok := r.registeredListeners[ID]; ok {
 		return l
 	}
@@ -186,6 +189,9 @@ func (r *MetricRegistry) RegisterTiming(
 	}
 
 	// only add once
+	r.mu.Lock()
+	defer r.mu.Unlock()
+
 	if l, ok := r.registeredListeners[ID]; ok {
 		return l
 	}
@@ -212,6 +218,9 @@ func (r *MetricRegistry) RegisterCount(
 	}
 
 	// only add once
+	r.mu.Lock()
+	defer r.mu.Unlock()
+
 	if l, ok := r.registeredListeners[ID]; ok {
 		return l
 	}
